@@ -264,6 +264,27 @@ func checkC06(w *World, c *Check, tier string) {
 	c.floor("C06.kv", 4)
 	checkListDecodeCount(w, c)
 	checkEscaper(w, c, "C06.escaper")
+	// gob encoders that put natural-language text into the property map: the "has data" flag must follow (see flagdisc.go)
+	checkFlagDiscipline(w, c, "C06.flag", func(f *ssa.Function, evs []flagEvent) bool {
+		for _, ev := range evs {
+			mu, ok := ev.in.(*ssa.MapUpdate)
+			if !ok {
+				continue
+			}
+			v := mu.Value
+			if e, ok := v.(*ssa.Extract); ok {
+				v = e.Tuple
+			}
+			if call, ok := v.(*ssa.Call); ok && len(call.Call.Args) > 0 {
+				switch typeName(call.Call.Args[0].Type()) {
+				case "NaturalLanguageValues", "LangRefValue", "Content", "LangRef":
+					return true
+				}
+			}
+		}
+		return false
+	})
+	c.floor("C06.flag", 3)
 	pr := newProver(w)
 	tf := &textFlow{w: w, pr: pr, rewriter: map[*ssa.Function]int{}, reparser: map[*ssa.Function]int{}, memo: map[ssa.Value]bool{}, busy: map[ssa.Value]bool{}}
 	tf.discover()
